@@ -5,6 +5,7 @@ import (
 	"go/constant"
 	"go/token"
 	"go/types"
+	"time"
 
 	"golang.org/x/tools/go/ssa"
 )
@@ -110,6 +111,7 @@ func runC06(c *Ctx) {
 	ruleNoGetBody(c, p, "C06.A")
 	ruleChainNotRetried(c, p, "C06.A")
 	c06Refusal(c, p, "C06.R")
+	ruleNoUnboundedWaitBetweenAttempts(c, p, "C06.E", "agent/utils.postResponseWithRetries", 10*time.Second)
 	c.Rule("C06.L", "recording a metric never holds up the serialiser or the handler (= C05.L)", 3)
 	c.Borrow(runC05, "C05.L", "C06.L", nil)
 	c.Rule("C06.B", "the replay buffer retains exactly the bytes it handed out, at the offsets it handed them out", 10)
